@@ -30,7 +30,7 @@ ASSUMPTIONS = [
     'thread runs atomically in the controlled mode; finer switches are only sampled by the free-running mode',
     'baseline = outcome on a freshly created engine of the same factory, one engine per distinct text',
 ]
-REQUIRED = {'sched.schedules': 50, 'sched.with_mid_parse_switch': 20, 'hook.token_points': 200,
+REQUIRED = {'configs.parses': 1000, 'configs.distinct_baseline_behaviours': 4, 'cold.schedules': 100, 'cold.with_switch_inside_first_use': 50, 'sched.schedules': 50, 'sched.with_mid_parse_switch': 20, 'hook.token_points': 200,
             'history.sequences': 5, 'free.parses': 100, 'reach.YaqlEngine.__call__': 100}
 EXHAUSTIVE = ('all interleavings of the token-fetch sequences of every ordered pair of the short-text pool '
               '(2 threads); thorough adds all 3-thread interleavings of <=3-token texts')
@@ -145,6 +145,10 @@ def plan(tier, seed):
     shards.append({'name': 'free', 'kind': 'free', 'iters': 400 if tier == 'quick' else 6000,
                    'threads': 8, 'timeout': 900})
     shards.append({'name': 'evalcache', 'kind': 'evalcache', 'count': 300 if tier == 'quick' else 3000})
+    for p in range(2 if tier == 'quick' else 8):
+        shards.append({'name': 'configs-%d' % p, 'kind': 'configs', 'count': 30 if tier == 'quick' else 300})
+    for p in range(8 if tier == 'quick' else 16):
+        shards.append({'name': 'cold-%d' % p, 'kind': 'cold', 'groups': 2 if tier == 'quick' else 40, 'timeout': 3000})
     return shards
 
 
@@ -181,6 +185,10 @@ def run_shard(spec, rec):
             _free(spec, rec, short + long_, base)
         elif kind == 'evalcache':
             _evalcache(spec, rec, short + long_, base)
+        elif kind == 'cold':
+            _cold(spec, rec, short + long_, base)
+        elif kind == 'configs':
+            _configs(spec, rec, short + long_)
         rec.count('hook.token_points', tp.count)
     finally:
         tp.close()
@@ -342,6 +350,145 @@ def _free(spec, rec, pool, base):
     _aftermath(rec, eng, pool, base)
 
 
+def _cold(spec, rec, pool, base):
+    """first use of a never-used engine by several threads at once.  Scheduling points are the statement starts
+    (LINE events) of yaql/language/factory.py and yaql/__init__.py - whatever an engine does, or may one day do,
+    on its first parse (building or publishing its lexer/parser) is interleaved statement by statement.  Per group:
+    every single-preemption schedule in both orders, plus random double preemptions; a new engine per schedule."""
+    rng = rng_for(spec['seed'], 'c01', spec['name'])
+    lp = hooks.LinePoints(hooks.module_codes(yfactory, yaql)).start()
+    try:
+        for g in range(spec['groups']):
+            k = rng.choice((2, 2, 3))
+            texts = [rng.choice(pool) for _ in range(k)]
+            variants = [rng.choice(VARIANTS) if rng.random() < 0.4 else 'direct' for _ in range(k)]
+            plans = []
+            # learn how many points thread i passes when it runs alone first
+            for first in range(k):
+                order = [first] + [j for j in range(k) if j != first]
+                eng = make_default()
+                res, b = _cold_schedule(eng, texts, variants, sched.ReplayChooser([first] * 100000), lp)
+                _cold_judge(rec, eng, texts, variants, res, b, [first] * 3, base, pool)
+                # ReplayChooser keeps `first` until it finishes: its own point count is the number of decisions it took
+                npoints = min(b.points, 60)
+                for a in range(1, npoints + 1):
+                    other = order[1]
+                    plans.append([first] * a + [other] * 100000)
+                    if k == 3 and a % 3 == 0:
+                        plans.append([first] * a + [order[2]] * (1 + a % 4) + [order[1]] * 100000)
+            for _ in range(6):
+                a, bb = rng.randrange(1, 20), rng.randrange(1, 20)
+                o = list(range(k))
+                rng.shuffle(o)
+                plans.append([o[0]] * a + [o[1]] * bb + [o[0]] * rng.randrange(1, 10) + [o[-1]] * 100000)
+            for seq in plans:
+                eng = make_default()
+                res, b = _cold_schedule(eng, texts, variants, sched.ReplayChooser(seq), lp)
+                _cold_judge(rec, eng, texts, variants, res, b, _rle(seq), base, pool)
+            if g == 0:
+                rec.sample({'phase': 'cold-start', 'texts': texts, 'variants': variants, 'schedules': len(plans) + k})
+    finally:
+        lp.stop()
+    rec.count('hook.line_points', lp.count)
+
+
+def _rle(seq):
+    out = []
+    for x in seq:
+        if out and out[-1][0] == x:
+            out[-1][1] += 1
+        else:
+            out.append([x, 1])
+    return out
+
+
+def _cold_schedule(eng, texts, variants, chooser, lp):
+    b = sched.Baton(chooser)
+    lp.baton = b
+    try:
+        funcs = [(lambda t=t, v=v: access(eng, v, t)) for t, v in zip(texts, variants)]
+        res = b.run(funcs)
+    finally:
+        lp.baton = None
+    return res, b
+
+
+def _cold_judge(rec, eng, texts, variants, res, b, rle, base, pool):
+    rec.count('cold.schedules')
+    if b.switches:
+        rec.count('cold.with_switch_inside_first_use')
+    rec.case(('cold', tuple(texts), tuple(variants), repr(rle)), nontrivial=b.switches > 0)
+    for t, v, r in zip(texts, variants, res):
+        if r is None or r[0] == 'aborted':
+            rec.inconc('cold-start schedule aborted by watchdog for texts %r' % (texts,))
+            return
+        got = r[1] if r[0] == 'ok' else ('exception', type(r[1]).__name__, str(r[1])[:200])
+        _compare(rec, 'cold-start', t, got, base.get(t),
+                 {'texts': list(texts), 'variants': list(variants), 'schedule': {'mode': 'rle', 'rle': rle}})
+    # the engine keeps working afterwards
+    t = pool[0]
+    _compare(rec, 'cold-start-aftermath', t, yq.parse_outcome(eng, t), base.get(t), {'texts': [t]})
+
+
+CONFIGS = {
+    'default': {},
+    'delegates': {'allow_delegates': True},
+    'legacy': {'legacy': True},
+    'legacy-delegates': {'legacy': True, 'allow_delegates': True},
+    'keyword-colon': {'keyword_operator': ':='},
+    'no-keyword': {'keyword_operator': None},
+}
+CONFIG_TEXTS = ['$f(1)', '(x)(1)', '$.a(2)(3)', 'f(1)(2)', '$x.y', 'a => 1', 'f(a => 1)', 'f(a := 1)', '$a := 2', '1 + 2 * 3',
+                '$.where($ > 1)', "'s'(1)", '[1, 2](0)', '{a => 1}', 'f(1, , 2)', 'a := b => c', '$($)', 'not $a(1)',
+                '$a => $b', '1 =>', 'x := ']
+
+
+def isolated_baseline(name, texts):
+    """outcomes of the texts on an engine of ONE configuration in a process of its own: what that engine gives
+    when no other engine has ever been created beside it"""
+    import json
+    import subprocess
+    code = ('import json, sys\n'
+            'from vmon import yq\n'
+            'cfg, texts = json.loads(sys.stdin.read())\n'
+            'eng = yq.engine(**cfg)\n'
+            'print(json.dumps([yq.parse_outcome(eng, t) for t in texts]))\n')
+    p = subprocess.run([sys.executable, '-c', code], input=json.dumps([CONFIGS[name], texts]).encode(),
+                       stdout=subprocess.PIPE, stderr=subprocess.PIPE, timeout=600)
+    if p.returncode != 0:
+        raise RuntimeError('isolated baseline process failed: %s' % p.stderr.decode()[-400:])
+    return {t: tuple(o) for t, o in zip(texts, json.loads(p.stdout.decode()))}
+
+
+def _configs(spec, rec, pool):
+    """engines of several configurations living in one process: each parses as it would alone"""
+    rng = rng_for(spec['seed'], 'c01', spec['name'])
+    texts = CONFIG_TEXTS + pool[:25]
+    want = {name: isolated_baseline(name, texts) for name in CONFIGS}
+    rec.count('configs.isolated_baselines', len(want))
+    distinct = len({tuple(sorted(w.items())) for w in want.values()})
+    rec.count('configs.distinct_baseline_behaviours', distinct)
+    for h in range(spec['count']):
+        order = list(CONFIGS)
+        rng.shuffle(order)
+        engines = {}
+        for step in range(60):
+            name = rng.choice(order[:rng.randrange(2, len(order) + 1)])
+            if name not in engines or rng.random() < 0.05:
+                engines[name] = yq.engine(**CONFIGS[name])         # created while other engines already exist
+            t = rng.choice(texts)
+            got = yq.parse_outcome(engines[name], t)
+            rec.count('configs.parses')
+            rec.case(('configs', name, t, tuple(sorted(engines))), nontrivial=len(engines) >= 2)
+            if tuple(got) != want[name][t]:
+                rec.violation('configs:outcome-differs-from-engine-alone:%s' % name,
+                              'text %r on a %s engine created beside %r gave %r; alone in a process it gives %r' % (
+                                  t, name, sorted(engines), got, want[name][t]),
+                              {'phase': 'configs', 'texts': [t], 'config': name, 'beside': sorted(engines)})
+        if h == 0:
+            rec.sample({'phase': 'configs', 'configurations': sorted(CONFIGS), 'creation_order': order})
+
+
 def _evalcache(spec, rec, pool, base):
     """module-level yaql.eval shares one cached engine and an expression cache:
     the tree stored for a text must be the tree of that text."""
@@ -375,6 +522,25 @@ def replay(data, rec):
             for t, r in zip(texts, res):
                 print('  thread parsing %r -> %r ; fresh engine -> %r' % (t, r, base.get(t)))
             _judge(rec, 'concurrent', eng, texts, data['variants'], res, b, sc, base)
+        elif phase == 'configs':
+            want = isolated_baseline(data['config'], texts)
+            engines = {n: yq.engine(**CONFIGS[n]) for n in data['beside'] if n != data['config']}
+            engines[data['config']] = yq.engine(**CONFIGS[data['config']])
+            for t in texts:
+                got = yq.parse_outcome(engines[data['config']], t)
+                print('  %r on a %s engine beside %r -> %r ; alone in a process -> %r' % (t, data['config'], data['beside'], got, want[t]))
+                if tuple(got) != want[t]:
+                    rec.violation('configs:outcome-differs-from-engine-alone:%s' % data['config'], 'replayed', data)
+        elif phase == 'cold-start':
+            lp = hooks.LinePoints(hooks.module_codes(yfactory, yaql)).start()
+            try:
+                seq = [x for x, n in data['schedule']['rle'] for _ in range(n)]
+                res, b = _cold_schedule(eng, texts, data['variants'], sched.ReplayChooser(seq), lp)
+            finally:
+                lp.stop()
+            for t, r in zip(texts, res):
+                print('  thread parsing %r on the never-used engine -> %r ; alone -> %r' % (t, r, base.get(t)))
+            _cold_judge(rec, eng, texts, data['variants'], res, b, data['schedule']['rle'], base, texts)
         else:
             for t in texts:
                 got = yq.parse_outcome(eng, t)
